@@ -94,13 +94,10 @@ impl TimeWindow {
 
         self.events.push_back(event);
 
-        while self
-            .events
-            .front()
-            .is_some_and(|e| e.metadata.timestamp < self.start_time)
-        {
-            self.events.pop_front();
-        }
+        // Events can arrive out of order, so a stale event may sit behind a
+        // younger one: check every event, not just the front.
+        let start_time = self.start_time;
+        self.events.retain(|e| e.metadata.timestamp >= start_time);
         while self.events.len() > self.max_events {
             self.events.pop_front();
         }
